@@ -63,7 +63,8 @@ theorem GI.modAwaits (hgi : GI df w) (hi : EvInv w.ev) (p : Pid) (f : Proc → P
 theorem GI.cancelOwn (hq : QI ex w) (hgi : GI df w) (g : Nat) (p : Pid)
     (hown : ∀ g', Await.guard g' ∈ (w.proc p).awaits → g' = g)
     (hu : ∀ e1 ∈ w.ev.pending, ∀ e2 ∈ w.ev.pending, isG01 e1 → isG01 e2 → e1.item.b = p + 1 → e2.item.b = p + 1 → e1 = e2)
-    {df' : Demand → Nat} (h1 : ∀ d, gOf w d = some g → 0 < (cancelKindFor w p aRes (some sigSuccess)).2 → df d + 1 ≤ df' d)
+    {df' : Demand → Nat} (h1 : ∀ d, gOf w d = some g → 0 < (cancelKindFor w p aRes (some sigSuccess)).2 →
+      Await.guard g ∈ (w.proc p).awaits → df d + 1 ≤ df' d)
     (h2 : ∀ d, df d ≤ df' d) :
     GI df' (cancelKindFor w p aRes (some sigSuccess)).1 ∧ QI ex (cancelKindFor w p aRes (some sigSuccess)).1 := by
   obtain ⟨hrel, hgone, hstay, hn⟩ := cancelKindFor_spec w p aRes (some sigSuccess) hq.ei
@@ -106,14 +107,24 @@ theorem GI.cancelOwn (hq : QI ex w) (hgi : GI df w) (g : Nat) (p : Pid)
     · obtain ⟨e0, he0, hg0, hb0⟩ := hex0
       have hpos : 0 < (cancelKindFor w p aRes (some sigSuccess)).2 := by
         rw [hn]; exact List.length_pos_of_mem (List.mem_filter.2 ⟨he0, (hmatch e0).2 ⟨hg0, hb0⟩⟩)
-      have hle : G w g' ≤ G w1 g' + 1 := by
-        refine G_le_succ_of_keep_except hq.ei g' e0.key ?_
-        intro e he hk hgr
-        refine hkeep e he ?_ hgr
-        intro hb
-        exact hk (by rw [hu e he e0 he0 hgr.1 hg0 hb hb0])
-      have := h1 d hd hpos
-      omega
+      by_cases hpa : Await.guard g' ∈ (w.proc p).awaits
+      · have hle : G w g' ≤ G w1 g' + 1 := by
+          refine G_le_succ_of_keep_except hq.ei g' e0.key ?_
+          intro e he hk hgr
+          refine hkeep e he ?_ hgr
+          intro hb
+          exact hk (by rw [hu e he e0 he0 hgr.1 hg0 hb hb0])
+        have := h1 d hd hpos hpa
+        omega
+      · have hle : G w g' ≤ G w1 g' := by
+          refine G_le_of_keep hq.ei g' ?_
+          intro e he hgr
+          refine hkeep e he ?_ hgr
+          intro hb
+          have := hgr.2; rw [hb, Nat.add_sub_cancel] at this
+          exact hpa this
+        have := h2 d
+        omega
     · have hle : G w g' ≤ G w1 g' := by
         refine G_le_of_keep hq.ei g' ?_
         intro e he hgr
@@ -131,12 +142,27 @@ theorem GI.cancelOwn (hq : QI ex w) (hgi : GI df w) (g : Nat) (p : Pid)
     have := h2 d
     omega
 
-/-- `guardWithdraw`: a queued entry is removed, or a pending grant is cancelled and passed on; `GI` survives -/
-theorem GI.guardWithdraw (hq : QI ex w) (hgi : GI df w) (g : Nat) (p : Pid)
+/-- `guardWithdraw`: a queued entry is removed, or a pending grant is cancelled and passed on; `GI` survives.  If the
+    process does not even await the guard any more (its awaits have been cleared, as in `cancel_awaiteds`) the signal
+    settles a deficit of one. -/
+theorem GI.guardWithdraw {df' : Demand → Nat} (hq : QI ex w) (hgi : GI df w) (g : Nat) (p : Pid)
     (hown : ∀ g', Await.guard g' ∈ (w.proc p).awaits → g' = g)
     (hu : ∀ e1 ∈ w.ev.pending, ∀ e2 ∈ w.ev.pending, isG01 e1 → isG01 e2 → e1.item.b = p + 1 → e2.item.b = p + 1 → e1 = e2)
-    (hexq : ∀ k, queued w g k → k ≠ p + 1 → ¬ ex (k - 1)) :
-    GI df (guardWithdraw w g p) ∧ QI ex (guardWithdraw w g p) := by
+    (hexq : ∀ k, queued w g k → k ≠ p + 1 → ¬ ex (k - 1))
+    (hA : ∀ d, gOf w d ≠ some g → df d ≤ df' d)
+    (hB : ∀ d, gOf w d = some g →
+      ((¬ queued w g (p + 1) ∧ 0 < (cancelKindFor w p aRes (some sigSuccess)).2 ∧ Await.guard g ∉ (w.proc p).awaits) → df d ≤ df' d + 1) ∧
+      (¬ (¬ queued w g (p + 1) ∧ 0 < (cancelKindFor w p aRes (some sigSuccess)).2 ∧ Await.guard g ∉ (w.proc p).awaits) → df d ≤ df' d)) :
+    GI df' (guardWithdraw w g p) ∧ QI ex (guardWithdraw w g p) := by
+  have hle : ∀ d, ¬ (¬ queued w g (p + 1) ∧ 0 < (cancelKindFor w p aRes (some sigSuccess)).2 ∧ Await.guard g ∉ (w.proc p).awaits) →
+      df d ≤ df' d := by
+    intro d hc
+    cases hd : gOf w d with
+    | none => exact hA d (by rw [hd]; simp)
+    | some g' =>
+      by_cases hgg : g' = g
+      · subst hgg; exact (hB d hd).2 hc
+      · exact hA d (by rw [hd]; intro h; exact hgg (Option.some.inj h))
   by_cases hqp : queued w g (p + 1)
   · obtain ⟨gd, hg, hk⟩ := hqp
     obtain ⟨q', hwf', hperm, heq⟩ := guardWithdraw_queued hg (hq.gwf g gd hg) hk
@@ -146,7 +172,7 @@ theorem GI.guardWithdraw (hq : QI ex w) (hgi : GI df w) (g : Nat) (p : Pid)
       obtain ⟨e, he, rfl⟩ := Event.mem_keys.1 hk'
       have := (mem_remove.1 (hperm.mem_iff.1 he)).1
       exact Event.mem_keys.2 ⟨e, this, rfl⟩
-    exact ⟨hgi.shrinkQueue hg hsub, hq.shrinkQueue hg hwf' hsub⟩
+    exact ⟨(hgi.shrinkQueue hg hsub).mono (fun d => hle d (fun hc => hc.1 ⟨gd, hg, hk⟩)), hq.shrinkQueue hg hwf' hsub⟩
   · have heq : Sim.guardWithdraw w g p =
         if (cancelKindFor w p aRes (some sigSuccess)).2 > 0 then Sim.signal (cancelKindFor w p aRes (some sigSuccess)).1 g
         else (cancelKindFor w p aRes (some sigSuccess)).1 := by
@@ -159,16 +185,30 @@ theorem GI.guardWithdraw (hq : QI ex w) (hgi : GI df w) (g : Nat) (p : Pid)
       gOf_congr hrel.res hrel.pools hrel.bufs hrel.oqs hrel.pqs
     split
     · rename_i hpos
-      obtain ⟨h1, hq1⟩ := GI.cancelOwn hq hgi g p hown hu
-        (df' := fun d => if gOf w d = some g then df d + 1 else df d)
-        (fun d hd _ => by simp [hd]) (fun d => by split <;> omega)
-      refine ⟨GI.signal hq1 h1 g ?_ ?_ ?_, hq1.signal g⟩
-      · intro k hk
-        have hk' : queued w g k := (queued_congr hrel.guards g k).1 hk
-        exact hexq k hk' (fun h => hqp (h ▸ hk'))
-      · intro d hd; rw [hgof] at hd; simp [hd]
-      · intro d hd; rw [hgof] at hd; simp [hd]
+      by_cases hpa : Await.guard g ∈ (w.proc p).awaits
+      · obtain ⟨h1, hq1⟩ := GI.cancelOwn hq hgi g p hown hu
+          (df' := fun d => if gOf w d = some g then df d + 1 else df d)
+          (fun d hd _ _ => by simp [hd]) (fun d => by split <;> omega)
+        refine ⟨GI.signal hq1 h1 g ?_ ?_ ?_, hq1.signal g⟩
+        · intro k hk
+          have hk' : queued w g k := (queued_congr hrel.guards g k).1 hk
+          exact hexq k hk' (fun h => hqp (h ▸ hk'))
+        · intro d hd; rw [hgof] at hd; simp only [hd, if_true]
+          have := hle d (fun hc => hc.2.2 hpa); omega
+        · intro d hd; rw [hgof] at hd; simp only [hd, if_false]
+          exact hA d hd
+      · obtain ⟨h1, hq1⟩ := GI.cancelOwn hq hgi g p hown hu (df' := df)
+          (fun d _ _ ha => absurd ha hpa) (fun d => Nat.le_refl _)
+        refine ⟨GI.signal hq1 h1 g ?_ ?_ ?_, hq1.signal g⟩
+        · intro k hk
+          have hk' : queued w g k := (queued_congr hrel.guards g k).1 hk
+          exact hexq k hk' (fun h => hqp (h ▸ hk'))
+        · intro d hd; rw [hgof] at hd
+          exact (hB d hd).1 ⟨hqp, hpos, hpa⟩
+        · intro d hd; rw [hgof] at hd
+          exact hA d hd
     · rename_i hpos
-      exact GI.cancelOwn hq hgi g p hown hu (df' := df) (fun d _ h => absurd h hpos) (fun d => Nat.le_refl _)
+      obtain ⟨h1, hq1⟩ := GI.cancelOwn hq hgi g p hown hu (df' := df) (fun d _ h => absurd h hpos) (fun d => Nat.le_refl _)
+      exact ⟨h1.mono (fun d => hle d (fun hc => hpos hc.2.1)), hq1⟩
 
 end CimbaModel.Sim.S3
